@@ -188,6 +188,30 @@ func sameVal(a, b rval) bool {
 	return true
 }
 
+// refLooseEq: a switch label matches iff `cond == label` (Spec.Ctl.looseEq; data.LooseCompare == 0 in
+// the code since fix C02-switch-loose-compare): equal kinds by value, null against a string as "",
+// null / bool on either side → both as booleans, int against string by the int's text (the generator
+// writes no numeric string labels), lists unordered against everything but null / bool.
+func refLooseEq(a, b rval) bool {
+	switch {
+	case a.k == "list" && b.k == "list":
+		return false
+	case a.k == b.k:
+		return sameVal(a, b)
+	case a.k == "null" && b.k == "str":
+		return b.s == ""
+	case a.k == "str" && b.k == "null":
+		return a.s == ""
+	case a.k == "bool" || b.k == "bool" || a.k == "null" || b.k == "null":
+		return a.truthy() == b.truthy()
+	case a.k == "int" && b.k == "str":
+		return strconv.FormatInt(a.i, 10) == b.s
+	case a.k == "str" && b.k == "int":
+		return a.s == strconv.FormatInt(b.i, 10)
+	}
+	return false
+}
+
 func (r *refInterp) eval(fr *frame, e *E) rval {
 	r.tick()
 	switch e.K {
@@ -409,7 +433,7 @@ func (r *refInterp) stmt(fr *frame, s *S) outcome {
 		start := -1
 		for i, c := range s.Cases {
 			l := r.eval(fr, c.L)
-			if v.k == l.k && sameVal(v, l) {
+			if refLooseEq(v, l) {
 				start = i
 				break
 			}
